@@ -803,8 +803,15 @@ class Explorer:
         return bool(cond)
 
     def _violation(self, what, model=None):
+        path_model = None
         if model is None: model = self._model()
+        else:
+            # the harness supplied witness values of its own (e.g. distinct primes for a polynomial identity); the values the
+            # solver found for this path are kept too: a violation that hangs on a value-dependent branch only replays with them
+            try: path_model = self._model()
+            except Exception: path_model = None
         v = dict(what=what, model=model, choices=dict(self.choices), info=dict(self.info))
+        if path_model is not None: v['path_model'] = path_model
         self.violations.append(v)
 
     # -- driver -------------------------------------------------------------------------
